@@ -18,9 +18,8 @@ import shutil
 
 PROPERTY = "C20"
 REPLICAS = 2
-REPLICA_NOTE = ("the primary digest is the W=1 reference front, the replica digest the front of a W=4 FIFO "
-                "run of the same spec under the other hash seed: a difference means the result depends on "
-                "the hash seed and/or on the worker count (the in-interpreter classes tell which)")
+REPLICA_NOTE = ("both digests are W=1 reference fronts of the same spec; the replica interpreter additionally "
+                "compares a W=4 FIFO run with its own reference in-process")
 TIERS = {
     "quick": dict(seeds=160, soft_s=170, hard_s=1500, per_seed_s=900, init_s=600, k=2),
     "thorough": dict(seeds=16000, soft_s=3000, hard_s=5400, per_seed_s=1200, init_s=600, k=4),
@@ -368,6 +367,30 @@ def replica_run(sc, workdir):
     return run_mapper(sc["params"], dict(REPLICA_CFG), _mk_tape(None), body, workdir)
 
 
+class _NoJoinSplit:
+    """Join fan-out splitting (split_in_half until there are n_procs groups) switched off: the
+    join module then believes it has one worker, everything else still runs with W workers."""
+
+    def __enter__(self):
+        import accelforge.mapper.FFM._join_pmappings.join_pmappings as jp
+        self.jp, self.orig = jp, jp.get_n_parallel_jobs
+        jp.get_n_parallel_jobs = lambda: 1
+        return self
+
+    def __exit__(self, *exc):
+        self.jp.get_n_parallel_jobs = self.orig
+        return False
+
+
+def attributed_to_split(sc, tape_values, workdir, ref_front, vclass):
+    """True iff the violation of class vclass disappears when only the join's worker-count
+    dependent group splitting is disabled (same scenario, same tape).  Used to identify the
+    recorded known finding by its call site; anything else is reported as new."""
+    with _NoJoinSplit():
+        cl, _, _ = exec_prefix(sc, tape_values, workdir, ref_front)
+    return vclass not in cl
+
+
 def reference_run(sc, workdir):
     body, variant = _body_for(sc)
     tape = _mk_tape(None)
@@ -423,14 +446,22 @@ def run_seed(seed, ctx):
         # null tape, cold caches) rather than from the W=1 reference: the driver compares it with
         # the primary's W=1 reference digest, which by C20 must be equal, and a hash-seed dependence
         # that only exists on the multi-worker code path is reached as well.
-        rep = replica_run(sc, workdir)
+        cfg_r = dict(REPLICA_CFG)
+        t_r = _mk_tape(None)
+        cl, rep = exec_compare_run(sc, cfg_r, t_r, workdir, ref_front)
         common.purge_scratch()
         res["evals"] += 1
-        if rep.error is not None:
-            res["xdigest"] = {"front": "replica_error:" + type(rep.error).__name__ + ":" + str(rep.error)[:80]}
-        else:
-            rf = rep.front[0] if isinstance(rep.front, list) else rep.front
-            res["xdigest"] = {"front": canon.sha(rf)}
+        # The replica's W=4 run is judged against the replica's own W=1 reference (same hash seed);
+        # the digest sent to the driver is the reference's, so that the cross-interpreter comparison
+        # is about the hash seed only and a worker-count dependence is reported under its own class.
+        for vclass, detail in cl.items():
+            sc1 = dict(sc, runs=[cfg_r])
+            key = "replica,W=4"
+            if vclass == "representative" and attributed_to_split(sc1, [], workdir, ref_front, vclass):
+                key = "split_in_half"
+            res["violations"].append(_violation(vclass, key, detail + " [replica run: W=4, FIFO, null tape]",
+                                                sc1, 0, cfg_r, t_r))
+            break
         res["events_sha"] = res["xdigest"]["front"]
         return res
     shas = [canon.sha(first)]
@@ -465,6 +496,9 @@ def run_seed(seed, ctx):
             cl, rrm, t = exec_prefix(msc, mtv, workdir, ref_front)
             sites = sorted(set(_call_sites_perturbed(rrm.sim))) if cl else []
             site_key = ",".join(sites) if sites else f"W={cfgm['W']}"
+            if vclass == "representative" and cfgm["W"] > 1 and cl and \
+                    attributed_to_split(msc, mtv, workdir, ref_front, vclass):
+                site_key = "split_in_half"
             v = _violation(
                 vclass, site_key, (cl.get(vclass) or detail) + f" [perturbed fan-ins in minimised run: "
                 f"{sites}; W={cfgm['W']}; cache_mode={cfgm['cache_mode']}; runs replayed before it: "
@@ -479,6 +513,34 @@ def run_seed(seed, ctx):
                          "reference_objectives": [r["obj"] for r in first["rows"]][:5],
                          "runs": [{kk: c[kk] for kk in ("W", "order_mode", "cache_mode", "clock_jumpy")}
                                   for c in sc["runs"]]}
+    return res
+
+
+def run_pinned(pinned, ctx):
+    """The specific input of a recorded known finding: reference + the pinned run, attributed."""
+    from sim import common, canon
+    workdir = common.scratch_root()
+    sc = {"params": pinned["params"], "mode": "map", "runs": [pinned["run"]], "aux_seed": 0}
+    res = {"evals": 0, "keys": [], "interleavings": [], "stats": {"pinned_known_finding_runs": 1},
+           "sim_seconds": 0.0, "violations": [], "events_sha": None}
+    ref = reference_run(sc, workdir)
+    common.purge_scratch()
+    res["evals"] += 1
+    if ref.error is not None:
+        return res
+    cfg = sc["runs"][0]
+    t = _mk_tape(cfg, replay=[])
+    cl, rr = exec_compare_run(sc, cfg, t, workdir, ref.front)
+    common.purge_scratch()
+    res["evals"] += 1
+    for vclass, detail in cl.items():
+        key = f"W={cfg['W']}"
+        if vclass == "representative" and attributed_to_split(sc, [], workdir, ref.front, vclass):
+            key = "split_in_half"
+        res["violations"].append(_violation(vclass, key, detail + " [pinned input of a recorded finding]",
+                                            sc, 0, cfg, t))
+        break
+    res["events_sha"] = t.event_digest()
     return res
 
 
@@ -513,8 +575,7 @@ def replay(rp, ctx):
     sc = rp["scenario"]
     if rp.get("kind") == "hashseed":
         # first interpreter: W=1 reference; second interpreter (other hash seed): the W=4 replica run
-        role = int(os.environ.get("VERIF_REPLAY_ROLE", "0"))
-        ref = reference_run(sc, workdir) if role == 0 else replica_run(sc, workdir)
+        ref = reference_run(sc, workdir)
         from sim import canon
         if ref.error is not None:
             return {"violations": [], "xdigest": {"front": "ref_error:" + type(ref.error).__name__}}
